@@ -114,16 +114,29 @@ def rule_a(rep: Report, idx: SourceIndex) -> None:
 	pl = fm.func('ASTFinder.__pluck')
 	plx = closure(pl, 1)
 	first = [n for n in nodes(plx, ast.Assign) if isinstance(n.targets[0], ast.Tuple) and len(n.targets[0].elts) == 2 and unparse(n.value).endswith('.first')]
-	if not first:
+	names_ = None
+	if first:
+		names_ = tuple(unparse(e) for e in first[0].targets[0].elts)
+	else:
+		# the same unpacking through the parameters of a private helper: `self.__pick_child(entry.children, *path.first)` with `def __pick_child(self, children, tag, index)`
+		for c_ in nodes(plx, ast.Call):
+			star = [i for i, a in enumerate(c_.args) if isinstance(a, ast.Starred) and unparse(a.value).endswith('.first')]
+			if len(star) == 1 and star[0] == len(c_.args) - 1 and isinstance(c_.func, ast.Attribute) and isinstance(c_.func.value, ast.Name) and c_.func.value.id in ('self', 'cls'):
+				g_ = fm.cls('ASTFinder').method(c_.func.attr) if fm.cls('ASTFinder') else None
+				if g_ is not None:
+					gp = [p_ for p_ in g_.params() if p_ not in ('self', 'cls')]
+					if len(gp) == star[0] + 2:
+						names_ = (gp[star[0]], gp[star[0] + 1])
+	if names_ is None:
 		r.skip('reader-positional', pl.where, '__pluck no longer unpacks (tag, index) = path.first')
 		r.skip('reader-by-tag', pl.where, '__pluck no longer unpacks (tag, index) = path.first')
 	else:
-		tagv, idxv = (unparse(e) for e in first[0].targets[0].elts)
-		subs = [n for fn in plx for n in nodes(fn, ast.Subscript) if unparse(n.value).endswith('children') and isinstance(n.ctx, ast.Load) and idxv in {x.id for x in ast.walk(n.slice) if isinstance(x, ast.Name)}]
+		tagv, idxv = names_
+		subs = [(fn, n) for fn in plx for n in nodes(fn, ast.Subscript) if unparse(n.value).endswith('children') and isinstance(n.ctx, ast.Load) and idxv in {x.id for x in ast.walk(n.slice) if isinstance(x, ast.Name)}]
 		if not subs:
 			r.skip('reader-positional', pl.where, 'no children[index] read in __pluck')
-		for n in subs:
-			fs = [(t, p) for t, p in facts(plx[0], n)]
+		for fn_, n in subs:
+			fs = [(t, p) for t, p in facts(fn_, n)]
 			indexed = any((t == f'{idxv} != -1' and p) or (t == f'{idxv} == -1' and not p) or (t in (f'{idxv} >= 0', f'{idxv} > -1') and p) or (t.startswith(f'0 <= {idxv}') and p) for t, p in fs)
 			r.check(unparse(n.slice) == idxv and indexed, 'reader-positional', pl.where, f'an indexed element must address children[{idxv}] (the writer\'s enumerate position) under `{idxv} != -1`: reads `{unparse(n)}` under {fs}', unparse(n))
 		filt = [n for fn in plx for n in nodes(fn, ast.comprehension) if n.ifs and any(isinstance(x, ast.Attribute) and x.attr == 'name' for i in n.ifs for x in ast.walk(i))]
